@@ -126,10 +126,12 @@ def assign_frame(c):
                         same(c.st.deref(ns1), r.st.deref(ns1)), same(c.st.deref(ns2), r.st.deref(ns2)))
         if refused:
             # an assignment refused by the namespace limit (C07) binds nothing; the frame is the same
-            written = z3.ForAll([j], z3.Implies(j != kb, z3.And(Sel(_pres(loc), j) == Sel(loc0.present, j), Sel(_val(loc), j) == Sel(loc0.val, j))))
+            # ... and locals[key] itself is bound exactly as before (a name that was assigned -- even
+            # to nil -- still resolves to that local binding, not to an outer one)
+            written = z3.ForAll([j], z3.And(Sel(_pres(loc), j) == Sel(loc0.present, j), z3.Implies(Sel(loc0.present, j), Sel(_val(loc), j) == Sel(loc0.val, j))))
         return z3.And(written, others, z3.BoolVal(f["locals"] == f0["locals"] and r.st.deref(r.st.deref(f["scope"]).fields["_maps"]).items == dq.items))
     c.ensures("writes-exactly-locals[key]-whatever-blocks-are-open", post)
-    c.ensures_exc("a-refused-assignment-writes-nothing-outside-locals[key]", lambda r: post(r, True))
+    c.ensures_exc("a-refused-assignment-leaves-every-local-binding(also-locals[key])-as-it-was", lambda r: post(r, True))
     c.raises("LocalNamespaceLimitError")
     c.replay("code", code=REPLAY_SCOPE)
 
@@ -318,3 +320,45 @@ def merged_globals_reach_the_loader():
         gl = [flow.dotted(flow.kwarg(cl, "globals")) if flow.kwarg(cl, "globals") is not None else "<missing>" for cl in lcalls]
         obs.append(flow.ob(f"Environment.{fname}:the-loader-gets-the-merged-globals", bool(lcalls) and all(g == "self.make_globals(globals)" for g in gl), str(gl), replay_schema="code", replay_extra={"code": REPLAY_ENV_GLOBALS}))
     return obs
+
+
+# ---- `xs.first` / `xs.last` resolve like `xs[0]` / `xs[-1]`: the item when there is one, and a
+# ---- LOOKUP ERROR (which get() turns into the configured undefined) when the array is empty
+
+REPLAY_FIRST_LAST = r'''
+def run(m):
+    import asyncio
+    from liquid import Environment, StrictUndefined
+    from liquid.exceptions import UndefinedError
+    bad = []
+    for src in ("{{ xs.first }}", "{{ xs.last }}", "{{ d.xs.first }}", "{{ xs[0] }}"):
+        t = Environment(undefined=StrictUndefined).from_string(src)
+        for f in (lambda: t.render(xs=[], d={"xs": []}), lambda: asyncio.run(t.render_async(xs=[], d={"xs": []}))):
+            try:
+                bad.append((src, f()))
+            except UndefinedError:
+                pass
+    ok = Environment().from_string("{{ xs.first }}{{ xs.last }}").render(xs=[1, 2, 3])
+    return {"violated": bool(bad) or ok != "13", "observed": [bad[:3], ok], "witness": "first-of-an-empty-array-is-not-undefined"}
+'''
+
+for _sfx in ("", "_async"):
+    for _key in ("first", "last"):
+        for _n in (0, 2):
+            def _mkfl(sfx, key, n):
+                @contract(CTX + ".get_item" + sfx, prop="C14", name=f"get_item{sfx}[array of {n} items . {key}]")
+                def fl(c):
+                    env = mk_env(c)
+                    ctx = mk_ctx(c, env)
+                    items = [c.any(f"item{i}") for i in range(n)]
+                    lst = c.st.alloc(HList(items=list(items)))
+                    c.call(lst, const(key), self_val=ctx)
+                    if n == 0:
+                        c.raises("IndexError")
+                        c.ensures("an-empty-array-has-no-first-or-last-item(lookup-error-not-a-value)", lambda r: z3.BoolVal(False))
+                    else:
+                        c.raises()
+                        want = items[0] if key == "first" else items[-1]
+                        c.ensures("the-first-or-last-item", lambda r: box(r.value) == want.t)
+                    c.replay("code", code=REPLAY_FIRST_LAST)
+            _mkfl(_sfx, _key, _n)
